@@ -17,6 +17,7 @@ import DDProofs.DddmpDecide
 import DDProofs.FindOrAdd
 import DDProofs.Reach
 import DDProofs.SwapDrivers
+open Std
 namespace DD
 
 /-- the specification of `find_or_add` assumed by `DDProofs/DddmpProofs.lean` holds -/
@@ -319,18 +320,18 @@ consistent), `DddmpHeaderOK f` (the header entries that identify variables are d
 and the mode.  Every statement includes complemented else-edges (a negative else-column) and
 signed root entries (`DddmpShannon.sign`). -/
 
-/-- C16 (format semantics, every mode with names): the roots of the loaded manager denote, by
+/-- C16 (format semantics, every mode, with or without names): the roots of the loaded manager denote, by
 variable NAME, exactly the root entries of the file evaluated by the DDDMP rule; that
 evaluation obeys the Shannon rule on every listed line; the manager is a good state -/
-theorem C16_format (f : DddmpFile) (hf : f.WF) (hH : DddmpHeaderOK f) (hn : f.named = true) :
+theorem C16_format (f : DddmpFile) (hf : f.WF) (hH : DddmpHeaderOK f) :
     ∃ m, loadDddmp f = .ok m ∧ GoodState m (fun _ => 0) ∧
       DddmpRootsDenoteBy (evalFormat f) f m ∧
       DddmpShannon f (fun info var => dddmpNameOf f info = some var) (evalFormat f) ∧
       ∀ α x, evalFile f α x = evalFormat f α x := by
   obtain ⟨m, h, hg, -, -, -, -, hr, -⟩ := C16_load_good f hf
   have e : evalFile f = evalFormat f := by
-    funext α x; exact evalFile_eq_evalFormat hf hH hn α x
-  refine ⟨m, h, hg, ?_, evalFormat_shannon hf hH hn, fun α x => evalFile_eq_evalFormat hf hH hn α x⟩
+    funext α x; exact evalFile_eq_evalFormat hf hH α x
+  refine ⟨m, h, hg, ?_, evalFormat_shannon hf hH, fun α x => evalFile_eq_evalFormat hf hH α x⟩
   rw [← e]; exact (dddmpRootsDenote_iff f m).mp hr
 
 /-- C16, `.varinfo 3` (labels are names; `.orderedvarnames` lists the writer's variables by
@@ -343,13 +344,12 @@ theorem C16_varinfo3 (f : DddmpFile) (hf : f.WF) (hH : DddmpHeaderOK f)
       DddmpShannon f (fun info var => info = var ∧ var ∈ ov) (evalFormat f) ∧
       m.nvars = ov.length ∧ ∀ (k : Nat) (var : DddmpTok), ov[k]? = some var →
         m.tbl.vars[var.show]? = some k ∧ m.tbl.l2v[k]? = some var.show := by
-  have hn : f.named = true := by simp [DddmpFile.named, ho]
   obtain ⟨m, h, hg, -, -, -, -, hr, hL⟩ := C16_load_good f hf
   obtain ⟨i2p, levels, roots, _, hh, _⟩ := id hf
   have e : evalFile f = evalFormat f := by
-    funext α x; exact evalFile_eq_evalFormat hf hH hn α x
+    funext α x; exact evalFile_eq_evalFormat hf hH α x
   refine ⟨m, h, hg, by rw [← e]; exact (dddmpRootsDenote_iff f m).mp hr,
-    (evalFormat_shannon hf hH hn).reading (dddmpNameOf_varinfo3 hv ho),
+    (evalFormat_shannon hf hH).reading (dddmpNameOf_varinfo3 hv ho),
     (hL _ _ _ hh).of_ordered hh hH ho⟩
 
 /-- C16, `.varinfo 0` with `.orderedvarnames`: the line labelled `ids[j]` is a node of the
@@ -363,14 +363,13 @@ theorem C16_varinfo0_ordered (f : DddmpFile) (hf : f.WF) (hH : DddmpHeaderOK f)
         ids[j]? = some i ∧ permids[j]? = some (k : Int) ∧ ov[k]? = some var) (evalFormat f) ∧
       m.nvars = ov.length ∧ ∀ (k : Nat) (var : DddmpTok), ov[k]? = some var →
         m.tbl.vars[var.show]? = some k ∧ m.tbl.l2v[k]? = some var.show := by
-  have hn : f.named = true := by simp [DddmpFile.named, ho]
   have hnd : ids.Nodup := by have := hH.ids hv; rw [hi] at this; exact this
   obtain ⟨m, h, hg, -, -, -, -, hr, hL⟩ := C16_load_good f hf
   obtain ⟨i2p, levels, roots, _, hh, _⟩ := id hf
   have e : evalFile f = evalFormat f := by
-    funext α x; exact evalFile_eq_evalFormat hf hH hn α x
+    funext α x; exact evalFile_eq_evalFormat hf hH α x
   refine ⟨m, h, hg, by rw [← e]; exact (dddmpRootsDenote_iff f m).mp hr,
-    (evalFormat_shannon hf hH hn).reading (dddmpNameOf_varinfo0_ordered hv hi hp hnd ho),
+    (evalFormat_shannon hf hH).reading (dddmpNameOf_varinfo0_ordered hv hi hp hnd ho),
     (hL _ _ _ hh).of_ordered hh hH ho⟩
 
 /-- C16, `.varinfo 1` with `.orderedvarnames`: the line labelled with the level `k` (an entry
@@ -384,15 +383,14 @@ theorem C16_varinfo1_ordered (f : DddmpFile) (hf : f.WF) (hH : DddmpHeaderOK f)
         ov[k]? = some var) (evalFormat f) ∧
       m.nvars = ov.length ∧ ∀ (k : Nat) (var : DddmpTok), ov[k]? = some var →
         m.tbl.vars[var.show]? = some k ∧ m.tbl.l2v[k]? = some var.show := by
-  have hn : f.named = true := by simp [DddmpFile.named, ho]
   have hnd : permids.Nodup := by
     have := hH.permids (by rw [hv]; decide); rw [hp] at this; exact this
   obtain ⟨m, h, hg, -, -, -, -, hr, hL⟩ := C16_load_good f hf
   obtain ⟨i2p, levels, roots, _, hh, _⟩ := id hf
   have e : evalFile f = evalFormat f := by
-    funext α x; exact evalFile_eq_evalFormat hf hH hn α x
+    funext α x; exact evalFile_eq_evalFormat hf hH α x
   refine ⟨m, h, hg, by rw [← e]; exact (dddmpRootsDenote_iff f m).mp hr,
-    (evalFormat_shannon hf hH hn).reading (dddmpNameOf_varinfo1_ordered hv hp hnd ho),
+    (evalFormat_shannon hf hH).reading (dddmpNameOf_varinfo1_ordered hv hp hnd ho),
     (hL _ _ _ hh).of_ordered hh hH ho⟩
 
 /-- C16, `.varinfo 0` without `.orderedvarnames`: the line labelled `ids[j]` is a node of the
@@ -409,14 +407,13 @@ theorem C16_varinfo0_supp (f : DddmpFile) (hf : f.WF) (hH : DddmpHeaderOK f)
       ∀ (j : Nat) (var : DddmpTok) (k : Int), sv[j]? = some var → permids[j]? = some k →
         ∃ i : Nat, (sortInts permids)[i]? = some k ∧ m.tbl.vars[var.show]? = some i ∧
           m.tbl.l2v[i]? = some var.show := by
-  have hn : f.named = true := by simp [DddmpFile.named, hs]
   have hnd : ids.Nodup := by have := hH.ids hv; rw [hi] at this; exact this
   obtain ⟨m, h, hg, -, -, -, -, hr, hL⟩ := C16_load_good f hf
   obtain ⟨i2p, levels, roots, _, hh, _⟩ := id hf
   have e : evalFile f = evalFormat f := by
-    funext α x; exact evalFile_eq_evalFormat hf hH hn α x
+    funext α x; exact evalFile_eq_evalFormat hf hH α x
   refine ⟨m, h, hg, by rw [← e]; exact (dddmpRootsDenote_iff f m).mp hr,
-    (evalFormat_shannon hf hH hn).reading (dddmpNameOf_varinfo0_supp hv hi hnd ho hs),
+    (evalFormat_shannon hf hH).reading (dddmpNameOf_varinfo0_supp hv hi hnd ho hs),
     (hL _ _ _ hh).of_supp hh hH (by rw [hv]; decide) ho hs hp⟩
 
 /-- C16, `.varinfo 1` without `.orderedvarnames`: the line labelled `permids[j]` is a node of
@@ -432,15 +429,14 @@ theorem C16_varinfo1_supp (f : DddmpFile) (hf : f.WF) (hH : DddmpHeaderOK f)
       ∀ (j : Nat) (var : DddmpTok) (k : Int), sv[j]? = some var → permids[j]? = some k →
         ∃ i : Nat, (sortInts permids)[i]? = some k ∧ m.tbl.vars[var.show]? = some i ∧
           m.tbl.l2v[i]? = some var.show := by
-  have hn : f.named = true := by simp [DddmpFile.named, hs]
   have hnd : permids.Nodup := by
     have := hH.permids (by rw [hv]; decide); rw [hp] at this; exact this
   obtain ⟨m, h, hg, -, -, -, -, hr, hL⟩ := C16_load_good f hf
   obtain ⟨i2p, levels, roots, _, hh, _⟩ := id hf
   have e : evalFile f = evalFormat f := by
-    funext α x; exact evalFile_eq_evalFormat hf hH hn α x
+    funext α x; exact evalFile_eq_evalFormat hf hH α x
   refine ⟨m, h, hg, by rw [← e]; exact (dddmpRootsDenote_iff f m).mp hr,
-    (evalFormat_shannon hf hH hn).reading (dddmpNameOf_varinfo1_supp hv hp hnd ho hs),
+    (evalFormat_shannon hf hH).reading (dddmpNameOf_varinfo1_supp hv hp hnd ho hs),
     (hL _ _ _ hh).of_supp hh hH (by rw [hv]; decide) ho hs hp⟩
 
 /-! non-vacuity of the five mode theorems: each example file meets the hypotheses, and on it
@@ -477,6 +473,136 @@ example : ∃ m, loadDddmp dddmpChain = .ok m ∧ GoodState m (fun _ => 0) ∧
     exact ⟨r, hrm, hd⟩
   · obtain ⟨r, hrm, -, hd⟩ := hr.1 (-4) (by decide)
     exact ⟨r, hrm, hd⟩
+
+/-! ### files WITHOUT names (`.orderedvarnames` and `.suppvarnames` both absent)
+
+The format then has no variable names.  `load` invents them: the variable at level `L` is the
+Python `int` `permids[L]` (so the `j`-th support variable is called `permids[permids[j]]`); the
+manager's `vars` has `int` keys (`DddmpTok.show` prints them; such variables can be used with
+`bdd.var(3)` / `let` / `quantify`, not in `add_expr` texts, whose grammar has no bare numbers).
+`C16_varinfo{0,1}_nameless` state the loader's convention from the header lines alone;
+`C16_nameless_by_index` is the case in which the invented name is the variable's index `ids[j]`
+in the writer (`permids[permids[j]] = ids[j]`, e.g. the identity order): only then does "by
+variable name" mean something outside the loader. -/
+
+/-- C16, `.varinfo 0` without names: the line labelled `ids[j]` is a node of the variable the
+loader calls `permids[permids[j]]`; level `L` of the loaded manager is the variable `permids[L]` -/
+theorem C16_varinfo0_nameless (f : DddmpFile) (hf : f.WF) (hH : DddmpHeaderOK f)
+    (hv : f.varinfo = some 0) (ho : f.orderedvarnames = none) (hs : f.suppvarnames = none)
+    {ids permids : List Int} (hi : f.ids = some ids) (hp : f.permids = some permids) :
+    ∃ m, loadDddmp f = .ok m ∧ GoodState m (fun _ => 0) ∧
+      DddmpRootsDenoteBy (evalFormat f) f m ∧
+      DddmpShannon f (fun info var => ∃ (j : Nat) (i : Int) (k : Nat) (v : Int), info = .num i ∧
+        ids[j]? = some i ∧ permids[j]? = some (k : Int) ∧ permids[k]? = some v ∧ var = .num v)
+        (evalFormat f) ∧
+      m.nvars = permids.length ∧ ∀ (L : Nat) (v : Int), permids[L]? = some v →
+        m.tbl.vars[toString v]? = some L ∧ m.tbl.l2v[L]? = some (toString v) := by
+  have hnd : ids.Nodup := by have := hH.ids hv; rw [hi] at this; exact this
+  obtain ⟨m, h, hg, -, -, -, -, hr, hL⟩ := C16_load_good f hf
+  obtain ⟨i2p, levels, roots, _, hh, _⟩ := id hf
+  have e : evalFile f = evalFormat f := by
+    funext α x; exact evalFile_eq_evalFormat hf hH α x
+  refine ⟨m, h, hg, by rw [← e]; exact (dddmpRootsDenote_iff f m).mp hr,
+    (evalFormat_shannon hf hH).reading (dddmpNameOf_varinfo0_nameless hv hi hp hnd ho hs),
+    (hL _ _ _ hh).of_nameless hh hH (by rw [hv]; decide) ho hs hp⟩
+
+/-- C16, `.varinfo 1` without names: the line labelled with the level `k` (an entry of
+`.permids`) is a node of the variable the loader calls `permids[k]` -/
+theorem C16_varinfo1_nameless (f : DddmpFile) (hf : f.WF) (hH : DddmpHeaderOK f)
+    (hv : f.varinfo = some 1) (ho : f.orderedvarnames = none) (hs : f.suppvarnames = none)
+    {permids : List Int} (hp : f.permids = some permids) :
+    ∃ m, loadDddmp f = .ok m ∧ GoodState m (fun _ => 0) ∧
+      DddmpRootsDenoteBy (evalFormat f) f m ∧
+      DddmpShannon f (fun info var => ∃ (k : Nat) (v : Int), info = .num (k : Int) ∧
+        (k : Int) ∈ permids ∧ permids[k]? = some v ∧ var = .num v) (evalFormat f) ∧
+      m.nvars = permids.length ∧ ∀ (L : Nat) (v : Int), permids[L]? = some v →
+        m.tbl.vars[toString v]? = some L ∧ m.tbl.l2v[L]? = some (toString v) := by
+  have hnd : permids.Nodup := by
+    have := hH.permids (by rw [hv]; decide); rw [hp] at this; exact this
+  obtain ⟨m, h, hg, -, -, -, -, hr, hL⟩ := C16_load_good f hf
+  obtain ⟨i2p, levels, roots, _, hh, _⟩ := id hf
+  have e : evalFile f = evalFormat f := by
+    funext α x; exact evalFile_eq_evalFormat hf hH α x
+  refine ⟨m, h, hg, by rw [← e]; exact (dddmpRootsDenote_iff f m).mp hr,
+    (evalFormat_shannon hf hH).reading (dddmpNameOf_varinfo1_nameless hv hp hnd ho hs),
+    (hL _ _ _ hh).of_nameless hh hH (by rw [hv]; decide) ho hs hp⟩
+
+/-- the invented names are the indices of the writer: `permids[permids[j]] = ids[j]` for every
+support variable `j` -/
+def namelessCoherentB (ids permids : List Int) : Bool :=
+  (List.range ids.length).all fun j =>
+    match ids[j]?, permids[j]? with
+    | some i, some k => decide (0 ≤ k) && permids[k.toNat]? == some i
+    | _, _ => true
+
+def NamelessCoherent (ids permids : List Int) : Prop := namelessCoherentB ids permids = true
+
+instance (ids permids : List Int) : Decidable (NamelessCoherent ids permids) :=
+  inferInstanceAs (Decidable (namelessCoherentB ids permids = true))
+
+theorem NamelessCoherent.get {ids permids : List Int} (h : NamelessCoherent ids permids)
+    {j : Nat} {i k : Int} (hi : ids[j]? = some i) (hk : permids[j]? = some k) :
+    0 ≤ k ∧ permids[k.toNat]? = some i := by
+  have hj : j ∈ List.range ids.length := List.mem_range.mpr (List.getElem?_eq_some_iff.mp hi).1
+  have := List.all_eq_true.mp h j hj
+  simp only [hi, hk, Bool.and_eq_true, decide_eq_true_eq, beq_iff_eq] at this
+  exact this
+
+/-- C16, files without names whose invented names are the writer's indices (`.varinfo 0`): the
+line labelled `i` (an entry of `.ids`) is a node of the variable `i` — the roots of the loaded
+manager denote the file's root entries as functions of the variable INDICES -/
+theorem C16_nameless_by_index (f : DddmpFile) (hf : f.WF) (hH : DddmpHeaderOK f)
+    (hv : f.varinfo = some 0) (ho : f.orderedvarnames = none) (hs : f.suppvarnames = none)
+    {ids permids : List Int} (hi : f.ids = some ids) (hp : f.permids = some permids)
+    (hc : NamelessCoherent ids permids) :
+    ∃ m, loadDddmp f = .ok m ∧ GoodState m (fun _ => 0) ∧
+      DddmpRootsDenoteBy (evalFormat f) f m ∧
+      DddmpShannon f (fun info var => ∃ i : Int, info = .num i ∧ i ∈ ids ∧ var = .num i)
+        (evalFormat f) := by
+  obtain ⟨m, h, hg, hr, hsh, -⟩ := C16_varinfo0_nameless f hf hH hv ho hs hi hp
+  obtain ⟨i2p, levels, roots, _, hh, _⟩ := id hf
+  obtain ⟨hlen, _, _⟩ := dddmpHeader_lengths hh hi hp
+  refine ⟨m, h, hg, hr, hsh.reading ?_⟩
+  intro info var
+  constructor
+  · rintro ⟨j, i, k, v, rfl, hji, hjk, hkv, rfl⟩
+    obtain ⟨_, hk⟩ := hc.get hji hjk
+    simp only [Int.toNat_natCast] at hk
+    rw [hkv] at hk
+    have hvi : v = i := Option.some.inj hk
+    subst hvi
+    exact ⟨v, rfl, List.mem_of_getElem? hji, rfl⟩
+  · rintro ⟨i, rfl, hm, rfl⟩
+    obtain ⟨j, hji⟩ := List.mem_iff_getElem?.mp hm
+    have hjl : j < permids.length := by
+      have := (List.getElem?_eq_some_iff.mp hji).1; omega
+    obtain ⟨hk0, hk⟩ := hc.get hji (List.getElem?_eq_getElem hjl)
+    refine ⟨j, i, permids[j].toNat, i, rfl, hji, ?_, hk, rfl⟩
+    rw [Int.toNat_of_nonneg hk0]
+    exact List.getElem?_eq_getElem hjl
+
+/-- example files without names: the diagram of `dddmpExWith` (`z < x < y`) written by a manager
+in which `z, x, y` have the indices 1, 0, 2 (levels 0, 1, 2): `.ids 0 1 2`, `.permids 1 0 2` -/
+def dddmpExNameless (vi : Int) (lx ly lz : DddmpTok) : DddmpFile := {
+  varinfo := some vi, nnodes := some 4, nvars := some 3, nsuppvars := some 3,
+  ids := some [0, 1, 2], permids := some [1, 0, 2], nroots := some 2, rootids := some [2, -4],
+  nodes := [⟨2, lz, 2, 4, 3⟩, ⟨1, .str "T", 1, 0, 0⟩, ⟨4, lx, 0, 1, -3⟩, ⟨3, ly, 1, 1, -1⟩] }
+
+def dddmpExN0 : DddmpFile := dddmpExNameless 0 (.num 0) (.num 2) (.num 1)
+def dddmpExN1 : DddmpFile := dddmpExNameless 1 (.num 1) (.num 2) (.num 0)
+
+example : dddmpExN0.WF ∧ DddmpHeaderOK dddmpExN0 ∧ dddmpExN0.varinfo = some 0 ∧
+    dddmpExN0.orderedvarnames = none ∧ dddmpExN0.suppvarnames = none ∧
+    NamelessCoherent [0, 1, 2] [1, 0, 2] := by decide
+example : dddmpExN1.WF ∧ DddmpHeaderOK dddmpExN1 ∧ dddmpExN1.varinfo = some 1 ∧
+    dddmpExN1.orderedvarnames = none ∧ dddmpExN1.suppvarnames = none := by decide
+/-- on both, the three lines are nodes of the variables `1` (`z`), `0` (`x`), `2` (`y`) -/
+example : [dddmpExN0, dddmpExN1].map (fun f => f.nodes.map fun n => dddmpNameOf f n.info) =
+    List.replicate 2 [some (.num 1), none, some (.num 0), some (.num 2)] := by decide
+/-- the invented name is NOT the index in general: with `.ids 0 1 2`, `.permids 1 2 0` the
+variable of index 0 (at level 1) is called `2` -/
+example : dddmpNameOf { dddmpExN0 with permids := some [1, 2, 0] } (.num 0) = some (.num 2) ∧
+    ¬ NamelessCoherent [0, 1, 2] [1, 2, 0] := by decide
 
 /-- the accepted modes are exactly these: a well-formed file has `.varinfo` 0, 1 or 3, and
 `.varinfo 3` needs `.orderedvarnames` -/
